@@ -1,5 +1,604 @@
 package main
 
-import "fmt"
+import (
+	"encoding/json"
+	"flag"
+	"fmt"
+	"os"
+	"path/filepath"
+	"sort"
+	"strings"
+	"time"
+)
 
-func main() { fmt.Println("goatvc") }
+var verifDir = "/verif"
+
+func main() {
+	if len(os.Args) < 2 {
+		fmt.Println("usage: goatvc check|dump|list ...")
+		os.Exit(2)
+	}
+	if d := os.Getenv("VERIF_DIR"); d != "" {
+		verifDir = d
+	}
+	switch os.Args[1] {
+	case "check":
+		os.Exit(cmdCheck(os.Args[2:]))
+	case "dump":
+		os.Exit(cmdDump(os.Args[2:]))
+	case "list":
+		os.Exit(cmdList(os.Args[2:]))
+	case "replay":
+		os.Exit(cmdReplay(os.Args[2:]))
+	}
+	fmt.Println("unknown command")
+	os.Exit(2)
+}
+
+func setup(repo string) (*Program, *Specs, error) {
+	if err := loadPrelude(filepath.Join(verifDir, "prelude", "prelude.smt2")); err != nil {
+		return nil, nil, err
+	}
+	prog, err := loadProgram(repo)
+	if err != nil {
+		return nil, nil, err
+	}
+	specs, err := readSpecs(repo)
+	if err != nil {
+		return nil, nil, err
+	}
+	return prog, specs, nil
+}
+
+func cmdList(args []string) int {
+	fs := flag.NewFlagSet("list", flag.ExitOnError)
+	repo := fs.String("repo", "/repo", "")
+	fs.Parse(args)
+	prog, specs, err := setup(*repo)
+	if err != nil {
+		fmt.Println("ERROR", err)
+		return 2
+	}
+	for _, k := range prog.scopeFuncKeys() {
+		mark := " "
+		if specs.Funcs[k] != nil {
+			mark = "*"
+		}
+		fmt.Println(mark, k)
+	}
+	return 0
+}
+
+// verifyFunc symbolically executes one function under contract and collects obligations.
+func (ex *Exec) verifyFunc(key string) error {
+	fn := ex.prog.Funcs[key]
+	if fn == nil {
+		return fmt.Errorf("contract-drift: function %s not found", key)
+	}
+	sp := ex.specs.Funcs[key]
+	ex.curKey = key
+	ex.paths = 0
+	st := &State{ex: ex, heap: map[string]string{}, cnt: map[string]string{}, published: map[string]bool{}}
+	var args []Val
+	for _, p := range fn.Params {
+		args = append(args, ex.symVal(st, p.Type(), "p."+p.Name()))
+	}
+	var binds []Val
+	for _, fv := range fn.FreeVars {
+		b := ex.symVal(st, fv.Type(), "fv."+fv.Name())
+		st.assume("(> " + b.T + " 0)")
+		binds = append(binds, b)
+	}
+	// pre-frame for evaluating requires
+	pf := ex.pseudoFrame(fn, key, sp, args, binds, st)
+	if sp != nil {
+		for _, l := range sp.Holds {
+			// the lock of the receiver is held on entry; its invariant holds
+			if len(args) > 0 {
+				st.held = append(st.held, LockRef{Key: l, Ref: args[0].T})
+				if ls := ex.specs.Locks[l]; ls != nil {
+					self := args[0]
+					for _, c := range ls.Inv {
+						st.assume(ex.evalClause(st, pf, c, map[string]Val{"self": self}))
+					}
+				}
+			}
+		}
+		for _, c := range sp.Requires {
+			st.assume(ex.evalClause(st, pf, c, nil))
+		}
+		for _, o := range sp.Owns {
+			v := ex.evalSpec(st, pf, o, nil)
+			st.pinned = append(st.pinned, v.T)
+		}
+	}
+	nRet := 0
+	ex.callBody(st, fn, args, binds, 0, true, func(st2 *State, fr *Frame, ret Val) {
+		nRet++
+		ex.paths++
+		if sp != nil {
+			for _, c := range sp.Ensures {
+				g := ex.evalClause(st2, fr, c, nil)
+				ex.oblige(st2, "ensures", key+"/"+c.name(), c.Labels, g, c, ex.posOf(fr.retInstr))
+			}
+			for _, l := range sp.Holds {
+				found := false
+				for _, h := range st2.held {
+					if h.Key == l {
+						found = true
+					}
+				}
+				if !found {
+					ex.notes["HOLDS-RELEASED "+key+" "+l] = true
+				}
+			}
+		}
+		if len(st2.held) > 0 && (sp == nil || len(sp.Holds) == 0) {
+			ex.lockLeak(st2, fr)
+		}
+		// reachability canary: this return must be reachable on some path
+		ob := ex.obligeRaw(st2, "canary", key+"/canary", nil, "false")
+		ob.Pos = ex.posOf(fr.retInstr)
+	})
+	ex.retCount[key] = nRet
+	return nil
+}
+
+func (ex *Exec) lockLeak(st *State, fr *Frame) {
+	ex.oblige(st, "discipline", fr.key+"#lock-held-at-return", []string{"C15.discipline"}, "false", nil, ex.posOf(fr.retInstr))
+}
+
+func (ex *Exec) obligeRaw(st *State, kind, name string, labels []string, goal string) *Obligation {
+	ob := &Obligation{ID: len(ex.obls), Func: ex.curKey, Name: name, Kind: kind, Labels: labels, Goal: goal,
+		PC: st.pc[:len(st.pc):len(st.pc)], Trace: st.trace[:len(st.trace):len(st.trace)]}
+	ex.obls = append(ex.obls, ob)
+	return ob
+}
+
+// ---------- known findings ----------
+
+type Finding struct {
+	Property   string `json:"property"`
+	Obligation string `json:"obligation"`
+	Status     string `json:"status"` // open | fixed
+	What       string `json:"what"`
+	Commit     string `json:"commit,omitempty"`
+	Witness    string `json:"witness,omitempty"`
+}
+
+func readFindings() []Finding {
+	var out []Finding
+	data, err := os.ReadFile(filepath.Join(verifDir, "known_findings.jsonl"))
+	if err != nil {
+		return nil
+	}
+	for _, l := range strings.Split(string(data), "\n") {
+		l = strings.TrimSpace(l)
+		if l == "" || strings.HasPrefix(l, "#") {
+			continue
+		}
+		var f Finding
+		if json.Unmarshal([]byte(l), &f) == nil {
+			out = append(out, f)
+		}
+	}
+	return out
+}
+
+// ---------- check ----------
+
+type obAgg struct {
+	Name      string
+	Kind      string
+	Labels    []string
+	Instances int
+	Failed    []*Obligation
+	Solvers   map[string]int
+	Ms        int64
+	Trivial   int
+	Pos       string
+	Text      string
+}
+
+func cmdCheck(args []string) int {
+	fs := flag.NewFlagSet("check", flag.ExitOnError)
+	repo := fs.String("repo", "/repo", "")
+	prop := fs.String("prop", "", "property id")
+	tier := fs.String("tier", "quick", "")
+	only := fs.String("func", "", "restrict to one function (debug)")
+	verbose := fs.Bool("v", false, "")
+	save := fs.String("save", "", "directory to save failing scripts")
+	noEvidence := fs.Bool("no-evidence", false, "")
+	fs.Parse(args)
+	t0 := time.Now()
+	seed := 0
+	if s := os.Getenv("VERIF_SEED"); s != "" {
+		fmt.Sscan(s, &seed)
+	}
+	prog, specs, err := setup(*repo)
+	if err != nil {
+		fmt.Println("ERROR setup:", err)
+		return 2
+	}
+	findings := readFindings()
+	open := map[string]bool{}
+	for _, f := range findings {
+		if f.Status == "open" {
+			open[f.Obligation] = true
+		}
+	}
+	P := *prop
+	// functions that carry clauses of this property
+	var keys []string
+	for k, sp := range specs.Funcs {
+		if *only != "" && k != *only {
+			continue
+		}
+		if sp.Trusted {
+			continue
+		}
+		if specHasProp(sp, P) {
+			keys = append(keys, k)
+		}
+	}
+	sort.Strings(keys)
+	ex := newExec(prog, specs)
+	ex.openFindings = open
+	ex.disciplineOn = P == "C15"
+	ex.propFilter = func(labels []string) bool {
+		for _, l := range labels {
+			if l == P || strings.HasPrefix(l, P+".") {
+				return true
+			}
+		}
+		return false
+	}
+	drift := false
+	if P == "C15" {
+		keys = nil
+		for _, k := range prog.scopeFuncKeys() {
+			if *only != "" && k != *only {
+				continue
+			}
+			keys = append(keys, k)
+		}
+	}
+	for _, k := range keys {
+		if err := ex.verifyFunc(k); err != nil {
+			fmt.Println("ERROR", err)
+			drift = true
+		}
+	}
+	// lemmas
+	for _, lm := range specs.Lemmas {
+		has := false
+		for _, l := range lm.Labels {
+			if l == P || strings.HasPrefix(l, P+".") {
+				has = true
+			}
+		}
+		if has {
+			ex.lemma(lm)
+		}
+	}
+	if ex.specErrs > 0 {
+		for n := range ex.notes {
+			if strings.HasPrefix(n, "SPEC-ERROR") {
+				fmt.Println(n)
+			}
+		}
+		fmt.Println("ERROR contract-drift: spec errors (see above)")
+		drift = true
+	}
+	cfg := SolveCfg{T1: 10 * time.Second, T2: 20 * time.Second, Seed: seed, Workers: 8, SaveDir: *save}
+	if *tier == "thorough" {
+		cfg.T1, cfg.T2 = 30*time.Second, 90*time.Second
+	}
+	var real, canaries []*Obligation
+	for _, ob := range ex.obls {
+		if ob.Kind == "canary" {
+			canaries = append(canaries, ob)
+		} else {
+			real = append(real, ob)
+		}
+	}
+	ex.decideAll(real, cfg)
+	// canaries: at least one return of each function must be reachable (not unsat)
+	ccfg := cfg
+	ccfg.T1, ccfg.T2 = 3*time.Second, 3*time.Second
+	vacuous := []string{}
+	byFunc := map[string][]*Obligation{}
+	for _, c := range canaries {
+		byFunc[c.Func] = append(byFunc[c.Func], c)
+	}
+	for _, k := range keys {
+		cs := byFunc[k]
+		if len(cs) == 0 {
+			continue
+		}
+		reach := false
+		// check up to a handful of returns; stop at the first reachable one
+		for i, c := range cs {
+			if i >= 6 {
+				break
+			}
+			c.Goal = "true"
+			if ex.coverSat(c, ccfg) != "unsat" {
+				reach = true
+				break
+			}
+		}
+		if !reach && len(cs) <= 6 {
+			vacuous = append(vacuous, k)
+		}
+	}
+
+	// aggregate
+	aggs := map[string]*obAgg{}
+	var names []string
+	for _, ob := range real {
+		a := aggs[ob.Name]
+		if a == nil {
+			a = &obAgg{Name: ob.Name, Kind: ob.Kind, Labels: ob.Labels, Solvers: map[string]int{}, Pos: ob.Pos}
+			if ob.Clause != nil {
+				a.Text = ob.Clause.Text
+			}
+			aggs[ob.Name] = a
+			names = append(names, ob.Name)
+		}
+		a.Instances++
+		a.Ms += ob.Ms
+		if ob.Trivial {
+			a.Trivial++
+		}
+		if ob.Status == "unsat" {
+			a.Solvers[ob.Solver]++
+		} else {
+			a.Failed = append(a.Failed, ob)
+		}
+	}
+	sort.Strings(names)
+	violations := 0
+	var knownLines, violLines []string
+	discharged := 0
+	var perOb []map[string]interface{}
+	var solverMs int64
+	for _, n := range names {
+		a := aggs[n]
+		solverMs += a.Ms
+		status := "discharged"
+		if len(a.Failed) > 0 {
+			if open[n] {
+				status = "known-finding"
+				what := n
+				for _, f := range findings {
+					if f.Obligation == n && f.Status == "open" {
+						what = n + " -- " + f.What
+					}
+				}
+				knownLines = append(knownLines, fmt.Sprintf("KNOWN-FINDING: property=%s %s", P, what))
+			} else {
+				status = "FAILED"
+				violations++
+				rp := ex.writeReplay(P, a, *repo)
+				violLines = append(violLines, rp)
+			}
+		} else {
+			discharged++
+		}
+		var solvers []string
+		for s, c := range a.Solvers {
+			solvers = append(solvers, fmt.Sprintf("%s:%d", s, c))
+		}
+		sort.Strings(solvers)
+		perOb = append(perOb, map[string]interface{}{"name": n, "kind": a.Kind, "status": status, "instances": a.Instances, "trivially_true_instances": a.Trivial, "solvers": strings.Join(solvers, " "), "ms": a.Ms, "at": a.Pos, "clause": a.Text})
+		if *verbose || status == "FAILED" {
+			fmt.Printf("  %-14s %s  [%d paths; %s; %dms]\n", status, n, a.Instances, strings.Join(solvers, " "), a.Ms)
+			if *verbose {
+				for _, ob := range real {
+					if ob.Name == n && !ob.Trivial && ob.Ms > 1500 {
+						fmt.Printf("      slow instance #%d %s %s %dms\n", ob.ID, ob.Status, ob.Solver, ob.Ms)
+					}
+				}
+			}
+			if status == "FAILED" && len(a.Failed) > 0 {
+				f := a.Failed[0]
+				fmt.Printf("      first failing path (%s, %s): %s\n", f.Status, f.Solver, strings.Join(tail(f.Trace, 12), " ; "))
+			}
+		}
+	}
+	// open findings that no longer fail are reported (not an error)
+	for _, f := range findings {
+		if f.Status == "open" && f.Property == P {
+			if a, ok := aggs[f.Obligation]; ok && len(a.Failed) == 0 {
+				fmt.Printf("NOTE: known finding %s no longer fails (obligation discharged)\n", f.Obligation)
+			}
+			if _, ok := aggs[f.Obligation]; !ok {
+				fmt.Printf("NOTE: known finding %s: obligation not generated in this run\n", f.Obligation)
+			}
+		}
+	}
+	for _, l := range knownLines {
+		fmt.Println(l)
+	}
+	for _, l := range violLines {
+		fmt.Println(l)
+	}
+	var noteList []string
+	abstracted := false
+	for n := range ex.notes {
+		noteList = append(noteList, n)
+		if strings.HasPrefix(n, "UNSUPPORTED") || strings.HasPrefix(n, "PATHCAP") {
+			abstracted = true
+		}
+	}
+	sort.Strings(noteList)
+	if *verbose {
+		for _, n := range noteList {
+			fmt.Println("  note:", n)
+		}
+	}
+	exit := 0
+	if violations > 0 {
+		exit = 1
+	}
+	if drift || len(real) == 0 {
+		if len(real) == 0 {
+			fmt.Println("ERROR no obligations generated for", P)
+		}
+		if exit == 0 {
+			exit = 2
+		}
+	}
+	if len(vacuous) > 0 {
+		fmt.Println("ERROR vacuous: no reachable return in", strings.Join(vacuous, ", "))
+		if exit == 0 {
+			exit = 2
+		}
+	}
+	if !*noEvidence && *only == "" {
+		var used []string
+		for u := range ex.used {
+			used = append(used, u)
+		}
+		sort.Strings(used)
+		var assumed []string
+		for _, u := range used {
+			if strings.HasPrefix(u, "external:") {
+				nm := strings.TrimPrefix(u, "external:")
+				assumed = append(assumed, "ASSUMED dependency contract "+nm+": "+externalDocs[nm])
+			}
+		}
+		samples := []interface{}{}
+		for i, ob := range real {
+			if !ob.Trivial && len(samples) < 3 {
+				samples = append(samples, map[string]interface{}{"obligation": ob.Name, "goal_smt": clip(ob.Goal, 600), "path": tail(ob.Trace, 10), "path_condition_size": len(ob.PC), "status": ob.Status, "solver": ob.Solver})
+			}
+			_ = i
+		}
+		if len(samples) == 0 && len(real) > 0 {
+			samples = append(samples, map[string]interface{}{"obligation": real[0].Name, "goal_smt": clip(real[0].Goal, 600)})
+		}
+		ev := map[string]interface{}{
+			"property_id": P, "tier": *tier, "seed": seed, "level": "proof",
+			"coverage": map[string]interface{}{
+				"obligations":              len(names),
+				"discharged":               discharged,
+				"obligation_instances":     len(real),
+				"checker_cmd":              "bin/goatvc check -prop " + P + " -tier " + *tier,
+				"trusted_base":             append([]string{"go/packages+go/types+go/ssa (x/tools v0.29.0) translate /repo faithfully", "SMT solvers z3 5.1.0 / z3 4.8.12 / cvc5 1.0.3 are sound on unsat", "goatvc's own symbolic executor and SMT encoding (self-tested by the must-fail corpus in selftest/)"}, assumed...),
+				"functions_under_contract": keys,
+				"per_obligation":           perOb,
+				"solver_time_s":            float64(solverMs) / 1000.0,
+				"samples":                  samples,
+				"known_findings":           knownLines,
+				"engine_notes":             noteList,
+				"abstracted":               abstracted,
+				"uses":                     used,
+				"vacuity":                  map[string]interface{}{"return_reachability_canaries": len(canaries), "vacuous_functions": vacuous},
+				"paths":                    ex.totalPaths(),
+			},
+			"assumptions": ex.assumptionList(P),
+			"wall_s":      time.Since(t0).Seconds(),
+			"violations":  violations,
+		}
+		os.MkdirAll(filepath.Join(verifDir, "evidence"), 0o755)
+		data, _ := json.MarshalIndent(ev, "", " ")
+		os.WriteFile(filepath.Join(verifDir, "evidence", P+".json"), data, 0o644)
+	}
+	fmt.Printf("%s: %d obligations (%d instances) over %d functions, %d discharged, %d known findings, %d violations, %.1fs\n",
+		P, len(names), len(real), len(keys), discharged, len(knownLines), violations, time.Since(t0).Seconds())
+	return exit
+}
+
+func (ex *Exec) totalPaths() int { return ex.pathEnds }
+
+func tail(s []string, n int) []string {
+	if len(s) > n {
+		return s[len(s)-n:]
+	}
+	return s
+}
+
+func clip(s string, n int) string {
+	if len(s) > n {
+		return s[:n] + "..."
+	}
+	return s
+}
+
+func specHasProp(sp *FuncSpec, P string) bool {
+	for _, cs := range [][]*Clause{sp.Requires, sp.Ensures, sp.AtCall} {
+		for _, c := range cs {
+			if c.hasProp(P) {
+				return true
+			}
+		}
+	}
+	for _, cs := range sp.LoopInv {
+		for _, c := range cs {
+			if c.hasProp(P) {
+				return true
+			}
+		}
+	}
+	if sp.NoPanic != nil && sp.NoPanic.hasProp(P) {
+		return true
+	}
+	return false
+}
+
+func (ex *Exec) assumptionList(P string) []string {
+	out := []string{
+		"A-ssa: go/packages, go/types, go/ssa are faithful to the Go semantics of /repo's current working tree",
+		"A-smt: the SMT solvers are sound when they answer unsat",
+		"A-int: integers are mathematical with explicit two's-complement wrap at every sized arithmetic result and conversion; bit operations unsupported",
+		"A-str: strings are SMT strings restricted to bytes; strings.ToLower is an uninterpreted idempotent length-preserving function (ASCII facts only)",
+		"A-slice: slices have value semantics (no aliasing-visible mutation through shared backing arrays; none occurs in scope)",
+		"A-conc: monitor rule for sync.Mutex, channel message invariants, monotone closed/ctx-done facts are sound for the Go memory model; partial correctness only (no liveness)",
+		"F1: calls into dependencies / through interfaces and function values do not write goat-owned heap objects except as their assumed contract states",
+		"generated protobuf getters are summarised as nil-safe field reads (shape-checked on every run)",
+	}
+	return out
+}
+
+func cmdDump(args []string) int {
+	fs := flag.NewFlagSet("dump", flag.ExitOnError)
+	repo := fs.String("repo", "/repo", "")
+	fn := fs.String("func", "", "")
+	all := fs.Bool("all", false, "dump scripts for all obligations")
+	fs.Parse(args)
+	prog, specs, err := setup(*repo)
+	if err != nil {
+		fmt.Println("ERROR", err)
+		return 2
+	}
+	ex := newExec(prog, specs)
+	if err := ex.verifyFunc(*fn); err != nil {
+		fmt.Println("ERROR", err)
+		return 2
+	}
+	for _, ob := range ex.obls {
+		fmt.Printf("--- #%d %s [%s] %v at %s\n   goal: %s\n   trace: %s\n", ob.ID, ob.Name, ob.Kind, ob.Labels, ob.Pos, clip(ob.Goal, 400), strings.Join(tail(ob.Trace, 20), " ; "))
+		if *all {
+			fmt.Println(ex.script(ob, true))
+		}
+	}
+	var ns []string
+	for n := range ex.notes {
+		ns = append(ns, n)
+	}
+	sort.Strings(ns)
+	for _, n := range ns {
+		fmt.Println("note:", n)
+	}
+	var us []string
+	for n := range ex.used {
+		us = append(us, n)
+	}
+	sort.Strings(us)
+	for _, n := range us {
+		fmt.Println("used:", n)
+	}
+	return 0
+}
